@@ -848,3 +848,134 @@ m("C09", "refactor-collector-pop", ZP,
   "        if use_macro or extend_macro:\n            self._use_macro.pop()",
   "        if extend_macro or use_macro:\n            self._use_macro.pop()",
   expect="silent")
+
+# ---- C10 -------------------------------------------------------------------
+m("C10", "translate-shared-stream", C,
+  '''        append = identifier("append", id(node))
+        stream = identifier("stream", id(node))
+
+        body += template("s = new_list", s=stream, new_list=self._new_list) + \\
+            template("a = s.append", a=append, s=stream)
+
+        # Visit body to generate the message body''',
+  '''        append = identifier("append", "tx")
+        stream = identifier("stream", "tx")
+
+        body += template("s = new_list", s=stream, new_list=self._new_list) + \\
+            template("a = s.append", a=append, s=stream)
+
+        # Visit body to generate the message body''')
+m("C10", "explicit-id-as-default", C,
+  '''        # if this translation node has a name, use it as the message id
+        if node.msgid:
+            msgid = ast.Constant(node.msgid)
+''',
+  '''        # if this translation node has a name, use it as the message id
+        if node.msgid:
+            msgid = ast.Constant(node.msgid)
+            default = msgid
+''')
+m("C10", "empty-content-translated", C,
+  '''        if not node.msgid:
+            translation = [ast.If(
+                test=load(msgid), body=translation, orelse=[]
+            )]
+''', '')
+m("C10", "msgid-not-stripped", C,
+  '''            "msgid = __re_whitespace(''.join(stream)).strip()",''',
+  '''            "msgid = __re_whitespace(''.join(stream))",''')
+m("C10", "convert-drops-context", C,
+  '''                    __converted = translate(
+                        target,
+                        domain=__i18n_domain,
+                        context=__i18n_context,
+                        target_language=target_language
+                    )
+                    target = str(target) \\
+                        if target is __converted \\
+                        else __converted
+                else:
+                    target = __markup()
+
+        return target"""''',
+  '''                    __converted = translate(
+                        target,
+                        domain=__i18n_domain,
+                        target_language=target_language
+                    )
+                    target = str(target) \\
+                        if target is __converted \\
+                        else __converted
+                else:
+                    target = __markup()
+
+        return target"""''')
+m("C10", "interpolation-translate-no-target", C,
+  '''                    "translate(msgid, domain=__i18n_domain, context=__i18n_context, target_language=target_language)",  # noqa:  E501 line too long''',
+  '''                    "translate(msgid, domain=__i18n_domain, context=__i18n_context)",  # noqa:  E501 line too long''')
+m("C10", "domain-not-restored", C,
+  '''            self.visit(node.node) + \\
+            template("__i18n_domain = BACKUP", BACKUP=backup)''',
+  '''            self.visit(node.node)''')
+m("C10", "context-backup-shared", C,
+  '''        backup = "__previous_i18n_context_%s" % mangle(id(node))''',
+  '''        backup = "__previous_i18n_context_%s" % mangle(node.name)''')
+m("C10", "filler-gets-callers-settings", C,
+  '''            "SLOT(__stream, econtext.copy(), rcontext)",''',
+  '''            "SLOT(__stream, econtext.copy(), rcontext, __i18n_domain, __i18n_context, target_language)",''')
+m("C10", "filler-defaults-none", C,
+  '''                        defaults=[
+                            load("__i18n_domain"),
+                            load("__i18n_context"),
+                            load("target_language"),
+                        ],''',
+  '''                        defaults=[
+                            load("None"),
+                            load("None"),
+                            load("None"),
+                        ],''')
+m("C10", "name-placeholder-inside-block", C,
+  '''        code = self.visit(node.node)
+        body.append(TranslationContext(code, append, stream))
+
+        # output msgid
+        text = Text('${%s}' % node.name)
+        body += self.visit(text)
+''',
+  '''        code = self.visit(node.node)
+        text = Text('${%s}' % node.name)
+        body.append(TranslationContext(code + self.visit(text), append, stream))
+''')
+m("C10", "message-object-stringified", C,
+  '''                    __converted = translate(
+                        target,
+                        domain=__i18n_domain,
+                        context=__i18n_context,
+                        target_language=target_language
+                    )
+                    target = str(target) \\
+                        if target is __converted \\
+                        else __converted
+                else:
+                    target = __markup()""")''',
+  '''                    target = str(target)
+                else:
+                    target = __markup()""")''')
+m("C10", "attr-translate-default-none", C,
+  '''            emit_translate(target, msgid, default=target)''',
+  '''            emit_translate(target, msgid)''')
+m("C10", "duplicate-name-accepted", C,
+  '''        if node.name in self._translations[-1]:
+            raise TranslationError(
+                "Duplicate translation name: %s.", node.name)
+''', '')
+m("C10", "target-not-evaluated", C,
+  '''            self._engine(node.expression, store(tmp)) + \\
+            [ast.Assign([store("target_language")], load(tmp))] + \\''',
+  '''            [ast.Assign([store("target_language")], ast.Constant(str(node.expression)))] + \\''')
+m("C10", "refactor-domain-backup", C,
+  '''        backup = "__previous_i18n_domain_%s" % mangle(id(node))
+        return template("BACKUP = __i18n_domain", BACKUP=backup) + \\''',
+  '''        backup = identifier("previous_domain", id(node))
+        return template("SAVED = __i18n_domain", SAVED=backup) + \\''',
+  expect="silent")
